@@ -3,10 +3,10 @@ CONSTANTS
   Procs = {1}
   MaxRev = 8
   MaxOps = 3
-  MaxFaults = 0
+  MaxFaults = 1
   MaxCrash = 0
-  MaxEdits = 0
-  FaultKinds = {}
+  MaxEdits = 1
+  FaultKinds = {"res"}
   Sequential = TRUE
   Planned = FALSE
   MaxPlan = 36
@@ -14,7 +14,7 @@ CONSTANTS
   LogSched = FALSE
   KeepLog = TRUE
   OpMenu <- MenuOwn
-  EditMenu <- EditsNone
+  EditMenu <- EditsNew
   PreMenu <- PreOwn
   Objs <- AllObjs
   MenuGuard <- GuardTrue
